@@ -177,7 +177,7 @@ async fn verif_model_header_ex_head_selection() {
         }
         // answers
         let mut reported: Vec<ExtendedHeader> = Vec::new();
-        let narrow = rng.below(2) == 0;   // few distinct headers: agreement is likely
+        let mode = rng.below(3);   // 0: all ten headers, 1: two heights with a fork each, 2: four different heights (agreement is likely)
         let sent: Vec<(u64, PeerId, u64)> = sender.sent.clone();
         for (id, peer, _) in sent {
             match rng.below(8) {
@@ -185,7 +185,7 @@ async fn verif_model_header_ex_head_selection() {
                 1 => handler.on_response_received(peer, id, vec![HeaderResponse { body: vec![], status_code: StatusCode::NotFound.into() }]),
                 2 => handler.on_response_received(peer, id, vec![pool[0].to_header_response(), pool[2].to_header_response()]),
                 _ => {
-                    let h = &pool[rng.below(if narrow { 4 } else { pool.len() as u64 }) as usize];
+                    let h = match mode { 0 => &pool[rng.below(pool.len() as u64) as usize], 1 => &pool[rng.below(4) as usize], _ => &pool[1 + 2 * rng.below(4) as usize] };
                     reported.push(h.clone());
                     handler.on_response_received(peer, id, vec![h.to_header_response()]);
                 }
